@@ -315,9 +315,25 @@ def check(case, ctx):
         originals_unchanged()
 
     elif op == "rewriter":
-        spec, rec = specs[0], recs[0]
+        grouped = case["nested_group"] and len(recs) >= 2
+        if grouped:
+            # field projection of a grouped record works on its flat view: union of the members' fields, first wins
+            ctx.cls("rewriter:grouped-subject")
+            ref = [x for x in ref_merge(specs, False)]
+            if any(n in GROUPED_ATTRS for n, _, _ in ref):
+                return  # attribute shadowing of grouped records is a listed finding of this property
+            rec = GroupedRecord("g/outer", list(recs))
+            have = [n for n, _, _ in ref]
+            types = dict((n, t) for n, t, _ in ref)
+            source_of = dict((n, recs[i]) for n, _, i in ref)
+            subject_name = "g/outer"
+        else:
+            spec, rec = specs[0], recs[0]
+            have = [n for _, n in fields_of(spec)]
+            types = dict((n, t) for t, n in fields_of(spec))
+            source_of = dict((n, rec) for n in have)
+            subject_name = spec["desc"][0]
         fields, exclude = case["fields"], case["exclude"]
-        have = [n for _, n in fields_of(spec)]
         if fields:
             exp = [n for n in fields if n in have and n not in exclude]
         else:
@@ -330,19 +346,22 @@ def check(case, ctx):
             raise Violation("rewriter/raised", "rewrite(fields=%r, exclude=%r) raised %r" % (fields, exclude, res), detail=res.type)
         out = res.value
         got = [n for _, n in out._desc.get_field_tuples()]
-        if got != exp:
-            raise Violation("rewriter/fields", "fields=%r exclude=%r on %r: got %r expected %r" % (fields, exclude, have, got, exp))
-        types = dict((n, t) for t, n in fields_of(spec))
+        if got != exp and not (grouped and not fields and not exclude and got == have):
+            raise Violation("rewriter/fields", "fields=%r exclude=%r on %r: got %r expected %r" % (fields, exclude, have, got, exp),
+                            detail="grouped" if grouped else None)
         for t, n in out._desc.get_field_tuples():
             if t != types[n]:
                 raise Violation("rewriter/type", "field %s type %s, original %s" % (n, t, types[n]))
-            if observe(getattr(out, n)) != observe(getattr(rec, n)):
-                raise Violation("rewriter/value", "field %s changed" % n)
-        if out._desc.name != spec["desc"][0]:
+            if observe(getattr(out, n)) != observe(getattr(source_of[n], n)):
+                raise Violation("rewriter/value", "field %s changed: %r, the %s record has %r"
+                                % (n, getattr(out, n), "grouped" if grouped else "plain", getattr(source_of[n], n)),
+                                detail="grouped" if grouped else None)
+        if out._desc.name != subject_name:
             raise Violation("rewriter/name", "name changed to %r" % out._desc.name)
         for m in ("_source", "_classification", "_generated"):
             if observe(getattr(out, m)) != observe(getattr(rec, m)):
-                raise Violation("rewriter/metadata", "%s changed" % m)
+                raise Violation("rewriter/metadata", "%s changed: %r, was %r" % (m, getattr(out, m), getattr(rec, m)),
+                                detail="grouped" if grouped else None)
         originals_unchanged()
 
 
